@@ -25,7 +25,7 @@ MANIFEST_ENTRY = {
           "discipline (beyond the bounds this is checked per program on every run, field L of the model driver). The tree compiler is "
           "tied to the worklist model of build() by compile_agrees_full (Properties/C05.v, proved for ALL node arrays that form a proper "
           "tree, all initial states, all fuel: a successful build IS the tree compiler's result), so C06_static_full_builder states "
-          "the same directly for BuilderWL.build; the agreement is also re-checked per program on every run. "
+          "the same directly for BuilderWL.build and C06_static_full_parsed for every token sequence the parser model accepts (parse returns a proper tree: C05_parse_tree_of); the agreement is also re-checked per program on every run. "
           "On every run the depth harness builds each program on both data implementations and executes it "
           "step by step; every observed step must be a move of the abstract machine, the observed depths must equal the typed "
           "ones, and the native abstract interpretation of the real instruction stream must agree with the extracted Coq one.",
